@@ -17,6 +17,10 @@ Spec language (JSON lists):
                                                   [[name, descr(, subshape)], ..] (layout chosen by the variant)
   ["rettuple", base, i, n]                        i-th tasklet of return_tuple(n) applied to base
   ["iter", base, i, n]                            i-th element of iteratetask(base, n)
+  ["sub", cls, inner]                             instance of a SUBCLASS of inner's type holding inner's content (built in the order
+                                                  written, C-contiguous): cls in SUBCLASSES, e.g. "OrderedDict", "Counter",
+                                                  "defaultdict_int", "MyDict", "MyDictAttr:1", "MyList", "Point", "MySet", "MyStr",
+                                                  "MyInt", "MyArr", "recarray", "masked" ...
 """
 import hashlib
 import json
@@ -51,6 +55,124 @@ def h(*a, **k):
 
 def m1(x):
     return x
+
+
+# ------------------------------------------------------------------ subclasses of the types hash_update dispatches on
+import collections
+import enum
+
+
+class MyDict(dict):
+    pass
+
+
+class MyDictAttr(dict):
+    def __init__(self, items, tag):
+        dict.__init__(self, items)
+        self.tag = tag
+
+
+class MyList(list):
+    pass
+
+
+class MyListAttr(list):
+    def __init__(self, items, tag):
+        list.__init__(self, items)
+        self.tag = tag
+
+
+class MyTuple(tuple):
+    pass
+
+
+Point = collections.namedtuple('Point', ['x', 'y'])
+Pair = collections.namedtuple('Pair', ['y', 'x'])
+
+
+class MySet(set):
+    pass
+
+
+class MyFrozenset(frozenset):
+    pass
+
+
+class MyStr(str):
+    pass
+
+
+class MyBytes(bytes):
+    pass
+
+
+class MyInt(int):
+    pass
+
+
+class MyFloat(float):
+    pass
+
+
+class Colour(enum.IntEnum):
+    ZERO = 0
+    ONE = 1
+    TWO = 2
+
+
+class MyArr(np.ndarray):
+    pass
+
+
+# cls -> (base kind of the inner spec, constructor from the realised inner parts)
+SUBCLASSES = {
+    'OrderedDict': ('dict', lambda kvs, tag: collections.OrderedDict(kvs)),
+    'Counter': ('dict', lambda kvs, tag: collections.Counter(dict(kvs))),
+    'defaultdict_int': ('dict', lambda kvs, tag: collections.defaultdict(int, kvs)),
+    'defaultdict_list': ('dict', lambda kvs, tag: collections.defaultdict(list, kvs)),
+    'defaultdict_none': ('dict', lambda kvs, tag: collections.defaultdict(None, kvs)),
+    'MyDict': ('dict', lambda kvs, tag: MyDict(kvs)),
+    'MyDictAttr': ('dict', lambda kvs, tag: MyDictAttr(kvs, tag)),
+    'MyList': ('list', lambda xs, tag: MyList(xs)),
+    'MyListAttr': ('list', lambda xs, tag: MyListAttr(xs, tag)),
+    'deque': ('list', lambda xs, tag: collections.deque(xs)),          # not a subclass: pickled whole like any other object
+    'MyTuple': ('tuple', lambda xs, tag: MyTuple(xs)),
+    'Point': ('tuple', lambda xs, tag: Point(*xs)),
+    'Pair': ('tuple', lambda xs, tag: Pair(*xs)),
+    'MySet': ('set', lambda xs, tag: MySet(xs)),
+    'MyFrozenset': ('frozenset', lambda xs, tag: MyFrozenset(xs)),
+    'MyStr': ('leaf', lambda v, tag: MyStr(v)),
+    'MyBytes': ('leaf', lambda v, tag: MyBytes(v)),
+    'MyInt': ('leaf', lambda v, tag: MyInt(v)),
+    'MyFloat': ('leaf', lambda v, tag: MyFloat(v)),
+    'Colour': ('leaf', lambda v, tag: Colour(v)),
+    'np.int64': ('leaf', lambda v, tag: np.int64(v)),
+    'np.float64': ('leaf', lambda v, tag: np.float64(v)),      # a subclass of float
+    'np.str_': ('leaf', lambda v, tag: np.str_(v)),            # a subclass of str
+    'np.bytes_': ('leaf', lambda v, tag: np.bytes_(v)),        # a subclass of bytes
+    'MyArr': ('array', lambda a, tag: a.view(MyArr)),
+    'recarray': ('array', lambda a, tag: a.view(np.recarray)),
+    'masked': ('array', lambda a, tag: np.ma.MaskedArray(a)),
+    'masked1': ('array', lambda a, tag: np.ma.MaskedArray(a, mask=[i == 0 for i in range(a.size)])),
+}
+
+
+def realise_sub(spec, rng, shared):
+    cls, _, tag = spec[1].partition(':')
+    kind, make = SUBCLASSES[cls]
+    inner = spec[2]
+    if kind == 'dict':
+        parts = [(realise(a, rng, shared), realise(b, rng, shared)) for a, b in inner[1]]
+    elif kind in ('list', 'tuple', 'set', 'frozenset'):
+        parts = [realise(x, rng, shared) for x in inner[1]]
+    elif kind == 'array':
+        if inner[0] == 'array':
+            parts = np.array(inner[3], dtype=inner[1]).reshape(inner[2])
+        else:
+            parts = np.frombuffer(bytes.fromhex(inner[3]), dtype=np.dtype(np_descr(inner[1]))).reshape(inner[2]).copy()
+    else:
+        parts = realise(inner, rng, shared)
+    return make(parts, tag)
 
 
 tg_f = TaskGenerator(m1)
@@ -224,6 +346,8 @@ def realise(spec, rng, shared):
         return Tasklet(realise(spec[1], rng, shared), FUNCS[spec[2]])
     if k == 'lambda':
         return Tasklet(realise(spec[1], rng, shared), LAMBDAS[spec[2]])
+    if k == 'sub':
+        return realise_sub(spec, rng, shared)
     if k == 'rettuple':
         base = realise(spec[1], rng, shared)
         return jug.task.return_tuple(spec[3])(lambda: base)()[spec[2]]
